@@ -141,9 +141,7 @@ Proof.
       destruct (eval_list_ints _ _ (Hints F)) as [zs [E Lz]].
       unfold eval_iop; rewrite E, all_some_map_some.
       destruct zs as [|z zs]; [destruct args; simpl in *; discriminate|].
-      change (map VI (z :: zs)) with (VI z :: map VI zs).
-      cbv beta iota. rewrite <- (as_ints_VI (z :: zs)) at 1. simpl map.
-      rewrite (as_ints_VI (z :: zs)); simpl; eexists; split; reflexivity.
+      simpl; rewrite as_ints_VI; simpl; eexists; split; reflexivity.
     + (* SUB *) apply andb_prop in W; destruct W as [L F].
       destruct (eval_list_ints _ _ (Hints F)) as [zs [E Lz]].
       unfold eval_iop; rewrite E, all_some_map_some, as_ints_VI.
@@ -180,3 +178,45 @@ Proof.
   - f_equal. apply map_ext_in; intros a Ia. rewrite forallb_forall in R; rewrite Forall_forall in IH.
     apply IH; auto.
 Qed.
+
+(* two assignments give every declared variable the same value (of its sort) *)
+Definition val_of (en : env) (d : vdecl) (i : nat) : value :=
+  match d with DBool => VB (eb en i) | DInt _ _ => VI (ei en i) end.
+Definition agree_on (vs : list vdecl) (e1 e2 : env) : Prop :=
+  forall i d, nth_error vs i = Some d -> val_of e1 d i = val_of e2 d i.
+
+Lemma refs_ok_agree vs : forall e, refs_ok vs e = true ->
+  forall e1 e2, agree_on vs e1 e2 -> eval no_graph e1 e = eval no_graph e2 e.
+Proof.
+  induction e as [c|z| |i|i lo hi|o args IH|o args IH] using expr_nested_ind; intros R e1 e2 A; simpl in *;
+    try reflexivity.
+  - destruct (nth_error vs i) as [[|]|] eqn:N; try discriminate.
+    pose proof (A i DBool N) as H; simpl in H; injection H as ->; reflexivity.
+  - destruct (nth_error vs i) as [[|l h]|] eqn:N; try discriminate.
+    pose proof (A i (DInt l h) N) as H; simpl in H; injection H as ->; reflexivity.
+  - f_equal. apply map_ext_in; intros a Ia. rewrite forallb_forall in R; rewrite Forall_forall in IH.
+    apply IH; auto.
+  - f_equal. apply map_ext_in; intros a Ia. rewrite forallb_forall in R; rewrite Forall_forall in IH.
+    apply IH; auto.
+Qed.
+
+Lemma holds_agree vs e e1 e2 : refs_ok vs e = true -> agree_on vs e1 e2 ->
+  holds no_graph e1 e = holds no_graph e2 e.
+Proof. intros R A; unfold holds; rewrite (refs_ok_agree vs e R e1 e2 A); reflexivity. Qed.
+
+Lemma in_bounds_from_agree e1 e2 : forall vs k,
+  (forall j d, nth_error vs j = Some d -> val_of e1 d (k + j) = val_of e2 d (k + j)) ->
+  in_bounds_from e1 k vs = in_bounds_from e2 k vs.
+Proof.
+  induction vs as [|d vs IH]; intros k H; simpl; [reflexivity|].
+  assert (Hn : forall j d0, nth_error vs j = Some d0 -> val_of e1 d0 (S k + j) = val_of e2 d0 (S k + j)).
+  { intros j d0 Hj. replace (S k + j)%nat with (k + S j)%nat by lia. apply H; exact Hj. }
+  destruct d as [|lo hi].
+  - apply IH; exact Hn.
+  - pose proof (H O (DInt lo hi) eq_refl) as H0; rewrite Nat.add_0_r in H0; simpl in H0; injection H0 as ->.
+    rewrite (IH (S k) Hn); reflexivity.
+Qed.
+
+Lemma in_bounds_agree vs e1 e2 : agree_on vs e1 e2 ->
+  in_bounds_from e1 O vs = in_bounds_from e2 O vs.
+Proof. intros A; apply in_bounds_from_agree; intros j d H; apply A; exact H. Qed.
